@@ -49,6 +49,8 @@ def gen_case(rng, big=False):
     if rng.random() < 0.35:
         d = rng.choice(dirs)
         files[os.path.join(d, '.listed') if d else '.listed'] = rng.choice(CONTENTS[1:])
+    if rng.random() < 0.3:
+        files['.hiddendir/listed-inside'] = rng.choice(CONTENTS[1:])
     # an ignored directory (with unlisted content) and a look-alike sibling that is listed
     ignores = []
     if 'foo' in dirs and rng.random() < 0.7:
@@ -125,7 +127,8 @@ def owner_dir(case, sub):
     return best
 
 
-MUTATIONS = ['modify', 'resize', 'delete', 'stray', 'stray-hidden', 'stray-ignored', 'retype', 'stray-newdir']
+MUTATIONS = ['modify', 'resize', 'delete', 'stray', 'stray-hidden', 'stray-ignored', 'retype', 'stray-newdir',
+             'delete-dir', 'stray-manifest-name', 'modify', 'delete-dir']
 
 
 def mutate(root, case, listed, rng, kinds):
@@ -134,7 +137,7 @@ def mutate(root, case, listed, rng, kinds):
     avail = sorted(listed)
     for kind in kinds:
         if kind in ('modify', 'resize', 'delete', 'retype'):
-            cand = [f for f in avail if f not in expected]
+            cand = [f for f in avail if f not in expected and os.path.isfile(os.path.join(root, f))]
             if not cand:
                 continue
             f = rng.choice(cand)
@@ -155,8 +158,34 @@ def mutate(root, case, listed, rng, kinds):
                 os.unlink(p)
                 os.mkdir(p)
             expected.add(f)
+        elif kind == 'delete-dir':
+            # a whole directory with listed files vanishes: every listed file in it is offending
+            cands = [d for d in case['dirs'][1:] if os.path.isdir(os.path.join(root, d))
+                     and not C.path_covered(case['ignores'], d)
+                     and not any(m == d or m.startswith(d + '/') or d.startswith(m + '/') for m in case['mdirs'])]
+            if not cands:
+                continue
+            d = rng.choice(cands)
+            import shutil
+            gone = [f for f in avail if f.startswith(d + '/') and os.path.lexists(os.path.join(root, f))]
+            shutil.rmtree(os.path.join(root, d))
+            expected.update(gone)
+            expected -= {f for f in expected if f.startswith(d + '/') and f not in listed}
+        elif kind == 'stray-manifest-name':
+            cands = [d for d in case['dirs'][1:] if os.path.isdir(os.path.join(root, d)) and d not in case['mdirs']
+                     and not C.path_covered(case['ignores'], d)]
+            if not cands:
+                continue
+            d = rng.choice(cands)
+            f = os.path.join(d, 'Manifest')
+            if os.path.lexists(os.path.join(root, f)):
+                continue
+            with open(os.path.join(root, f), 'wb') as fh:
+                fh.write(b'DATA nothing 0\n')
+            expected.add(f)
         elif kind == 'stray':
-            d = rng.choice([x for x in case['dirs'] if not C.path_covered(case['ignores'], x)] or [''])
+            d = rng.choice([x for x in case['dirs'] if not C.path_covered(case['ignores'], x)
+                            and os.path.isdir(os.path.join(root, x))] or [''])
             f = os.path.join(d, 'stray.txt') if d else 'stray.txt'
             if f in listed:
                 continue
